@@ -154,11 +154,13 @@ func (o c17Op) String() string {
 		return fmt.Sprintf("Named(%s)", nm)
 	case "list":
 		return "List()"
+	case "listscribble":
+		return "List()+caller overwrites and appends to the returned slice"
 	}
 	return fmt.Sprintf("SetDecorationNamed(%s)+Render", nm)
 }
 
-var c17Menu = []c17Op{{"register", 0, 1}, {"register", 0, 2}, {"register", 1, 1}, {"named", 0, 0}, {"named", 2, 0}, {"list", 0, 0}, {"render", 0, 0}, {"render", 2, 0}}
+var c17Menu = []c17Op{{"register", 0, 1}, {"register", 0, 2}, {"register", 1, 1}, {"named", 0, 0}, {"named", 2, 0}, {"list", 0, 0}, {"render", 0, 0}, {"render", 2, 0}, {"listscribble", 0, 0}}
 
 func c17Exec(op c17Op, names []string, thread int, clock *int, log *[]regEvent) {
 	ev := regEvent{thread: thread, op: op.kind, name: names[op.name], arg: op.dec}
@@ -171,6 +173,16 @@ func c17Exec(op c17Op, names []string, thread int, clock *int, log *[]regEvent) 
 		ev.gotDecor = decorID(decoration.Named(names[op.name]), 3)
 	case "list":
 		ev.list = decoration.RegisteredDecorationNames()
+	case "listscribble":
+		l := decoration.RegisteredDecorationNames()
+		ev.list = append([]string(nil), l...)
+		ev.op = "list"
+		// the caller owns what it was handed: it may sort, overwrite and append
+		for i := range l {
+			l[i] = "~scribbled~"
+		}
+		l = append(l, "csv", "html", "json", "markdown")
+		sort.Strings(l)
 	case "render":
 		tt := texttable.New()
 		tt.AddHeaders("h")
@@ -679,8 +691,8 @@ func init() {
 		Level:     "model_checking",
 		Overlay:   true,
 		Technique: "stateless model checking of the real registry code under a cooperative scheduler (overlay-instrumented: sync shim + access hooks on mutable package-level variables), all interleavings per program; vector-clock race detection and brute-force linearizability against a sequential map; plus exhaustive sequential histories",
-		Rule: "family texttable-lifecycle: every sequence of <=5 (thorough 6) operations {set a known name, another known name, an unknown name, a custom decoration, register the unknown name, Render} on ONE long-lived TextTable (refuses to render exactly while its current name is unknown, otherwise renders with the current decoration); family sequential: every sequence of <=4 (thorough 5) operations from {Register(n,d1), Register(n,d2), Register(m,d1), Named(n), Named(never), List, SetDecorationNamed(n)+Render, SetDecorationNamed(never)+Render} checked against a map model after each step (incl. fails-closed: unknown name => error and refused render); " +
-			"families 3-threads-1-op (8^3 programs, <=2 preemptions; thorough <=4), 2-threads-2-ops (8^4 programs, <=3 preemptions; thorough all), thorough 3-threads-2-ops (<=2 preemptions): names forced to collide, every schedule explored, each followed by final reads; " +
+		Rule: "family texttable-lifecycle: every sequence of <=5 (thorough 6) operations {set a known name, another known name, an unknown name, a custom decoration, register the unknown name, Render} on ONE long-lived TextTable (refuses to render exactly while its current name is unknown, otherwise renders with the current decoration); family sequential: every sequence of <=4 (thorough 5) operations from {Register(n,d1), Register(n,d2), Register(m,d1), Named(n), Named(never), List, List followed by the caller overwriting/appending to/sorting the returned slice, SetDecorationNamed(n)+Render, SetDecorationNamed(never)+Render} checked against a map model after each step (incl. fails-closed: unknown name => error and refused render); " +
+			"families 3-threads-1-op (9^3 programs, <=2 preemptions; thorough <=4), 2-threads-2-ops (9^4 programs, <=3 preemptions; thorough all), thorough 3-threads-2-ops (<=2 preemptions): names forced to collide, every schedule explored, each followed by final reads; " +
 			"oracle per schedule: no deadlock, no panic, no pair of conflicting accesses to the registry map unordered by happens-before, and the call/return history linearizable; non-trivial = every concurrent program; distinct by program and by observed outcome vector",
 		Assumptions: []string{"interleavings are explored at the granularity of hooked points (sync operations, accesses to package-level variables that are assigned outside init, harness yields); memory-model effects below that are only seen by the separate free-running -race pass",
 			"aliasing through pointers/method receivers and state inside the standard library are not instrumented", "the registry is process-global: every execution uses names unique to it"},
